@@ -423,16 +423,24 @@ func (g *c12Gen) record(server, kid string, state string, keyIdx int, at uint64)
 	case "expired-past-vu":
 		k.Exp = at - 1
 		k.VU = now + 2*c12Day
+	case "vu-above-int64": // unsigned: far in the future; as a time.Time: before the epoch
+		k.VU = 1<<63 + 1000
+	case "expired-above-int64":
+		k.Exp = 1<<63 + 1000
 	}
 	return k
 }
 
 var c12States = []string{"current", "current-far", "current-short", "stale", "stale-old", "vu-at", "vu-at-1", "vu-at+1",
-	"novalidity", "expired-before", "expired-at", "expired-after", "expired-with-vu", "expired-past-vu"}
+	"novalidity", "expired-before", "expired-at", "expired-after", "expired-with-vu", "expired-past-vu", "vu-above-int64", "expired-above-int64"}
 
 func (g *c12Gen) pickAt() uint64 {
 	now := g.nowMs()
-	switch g.c.Rng.Intn(9) {
+	switch g.c.Rng.Intn(12) {
+	case 9:
+		return 0
+	case 10:
+		return 1<<63 + uint64(g.c.Rng.Intn(3)) - 1
 	case 0:
 		return now - 40*c12Day
 	case 1:
@@ -877,6 +885,7 @@ func init() {
 		g.wasValidAt()
 		g.listKeyIDs()
 		g.checkKeys()
+		g.publicKey()
 		g.directFetch()
 		g.perspectiveFetch()
 	})
@@ -1158,6 +1167,25 @@ func init() {
 		ch, ks := gmsl.CheckKeys(spec.ServerName(sc.Server), time.Unix(0, sc.Now), keys)
 		return args, B(c12ChecksText(ch, ks))
 	})
+	// [scenario {kid, at}; raw document]
+	RegisterImpl("C12.public_key", func(args [][]byte) ([][]byte, []byte) {
+		var sc struct {
+			Kid string `json:"kid"`
+			At  uint64 `json:"at"`
+		}
+		if err := json.Unmarshal(args[0], &sc); err != nil || len(args) < 2 {
+			return args, B("badconfig")
+		}
+		var keys gmsl.ServerKeys
+		if err := json.Unmarshal(args[1], &keys); err != nil {
+			return args, B("unmarshal-error")
+		}
+		k := keys.PublicKey(gmsl.KeyID(sc.Kid), spec.Timestamp(sc.At))
+		if len(k) == 0 {
+			return args, B("nil")
+		}
+		return args, B(hex.EncodeToString(k))
+	})
 	RegisterImpl("C12.direct_fetch", func(args [][]byte) ([][]byte, []byte) {
 		var sc c12FetchScenario
 		if err := json.Unmarshal(args[0], &sc); err != nil {
@@ -1343,6 +1371,27 @@ func (g *c12Gen) checkKeys() {
 		cl := clocks[c.Rng.Intn(len(clocks))]
 		d.VU = cl.vu
 		emit(c12Servers[c.Rng.Intn(2)], d, cl.now, "check_keys random")
+	}
+}
+
+func (g *c12Gen) publicKey() {
+	T := uint64(1700000000000)
+	d := c12GoodDoc("srvA", "ed25519:a", 0, T)
+	d.Verify = append(d.Verify, c12VerifyKeySpec{Kid: "ed25519:b", Key: c12Pub(1), SignIdx: 1})
+	d.Old = []c12OldKeySpec{{"ed25519:old", c12Pub(2), T - 500}, {"ed25519:b", c12Pub(3), T + 500}, {"ed25519:late", c12Pub(4), 1<<63 + 5}}
+	doc, err := c12BuildDoc(d)
+	if err != nil {
+		panic(err)
+	}
+	fields, _ := c12DocsJSON([]*c12Doc{doc})
+	for _, kid := range []string{"ed25519:a", "ed25519:b", "ed25519:old", "ed25519:late", "ed25519:none", ""} {
+		for _, base := range []uint64{T, T - 500, T + 500, 0, 1 << 63, 1<<63 + 5, 1<<64 - 1} {
+			for _, dd := range []int64{-1, 0, 1} {
+				cfg := fmt.Sprintf(`{"kid":"%s","at":%d,"docs":%s}`, kid, base+uint64(dd), fields)
+				g.c.Run("C12.public_key", [][]byte{B(cfg), doc.Raw}, "C12.public_key", "", "ServerKeys.PublicKey")
+				g.c.Count("public_key")
+			}
+		}
 	}
 }
 
